@@ -222,7 +222,9 @@ def mbt(name, tier, seed, wd, bindir):
                 cur, k = o["tr"], 0
                 continue
             ps = pred.get(cur, [])
-            if k < len(ps):
+            # once the model's estimator has left what 32-bit TLC integers can follow (a sample above
+            # RMax), its time-dependent predictions for the rest of the behaviour are not compared
+            if k < len(ps) and not any(q.get("unk") for q in ps[:k + 1]):
                 p = ps[k]
                 oev = sorted((e["k"], e.get("why") if e["k"] == "failed" else
                               (e.get("cls") if e["k"] == "recvd" else "")) for e in o["ev"])
